@@ -425,11 +425,7 @@ where
                         let o = out.borrow();
                         ctx.want_sample = !shrinking && o.samples.len() < 2 && o.evaluations % 97 == 3;
                     }
-                    if std::panic::catch_unwind(std::panic::AssertUnwindSafe(|| (part.check)(&case, &mut ctx))).is_err() {
-                        let msg = mdns_sd::verif::take_last_panic().unwrap_or_default();
-                        ctx.violations.clear();
-                        ctx.violation(format!("HARNESS/check-panicked/{}", msg.split(": ").next().unwrap_or("")), format!("the check itself panicked: {msg}"));
-                    }
+                    guarded(prop, part.check, &case, &mut ctx);
                     if shrinking {
                         // Re-execution during shrinking: only the verdict matters; keep
                         // shrinking towards the *same* signature.
@@ -541,10 +537,12 @@ pub fn run_enumerated<C>(
     let known_sigs: Vec<String> = agg.known.iter().map(|f| f.signature.clone()).collect();
     let known = |s: &str| known_sigs.iter().any(|k| k == s);
     let results: Mutex<Vec<WorkerOut>> = Mutex::new(Vec::new());
+    let prop = agg.prop.clone();
     std::thread::scope(|scope| {
         for w in 0..WORKERS as u64 {
             let results = &results;
             let known = &known;
+            let prop = &prop;
             scope.spawn(move || {
                 let mut o = WorkerOut::default();
                 let mut i = w;
@@ -554,7 +552,7 @@ pub fn run_enumerated<C>(
                         want_sample: o.samples.is_empty() && i % 1013 == 7,
                         ..Default::default()
                     };
-                    check(&case, &mut ctx);
+                    guarded(prop, check, &case, &mut ctx);
                     if let Some(v) = absorb(&mut o, &ctx, known) {
                         if ctx.fatal {
                             STOP.store(true, std::sync::atomic::Ordering::SeqCst);
@@ -595,6 +593,11 @@ pub fn run_enumerated<C>(
             }
         }
         if let Some((sig, detail, case)) = o.failure {
+            if sig.starts_with("HARNESS/") {
+                let path = write_replay(&agg.prop, name, agg.seed, &sig, &detail, &case);
+                agg.health_failures.push(format!("{}: {} ({}) case saved to {}", name, sig, detail, path.display()));
+                continue;
+            }
             if agg.new_violations.iter().any(|(s, _)| s == &sig) {
                 continue;
             }
@@ -613,6 +616,22 @@ pub fn run_enumerated<C>(
         "part": name, "evaluations": evals, "distinct_nontrivial": nt, "exhaustive": true,
         "wall_s": t0.elapsed().as_secs_f64(),
     }));
+}
+
+/// Runs one check; a panic does not take the process down. A panic raised by the crate's own code
+/// (called in-process through the facade) is a violation of the property being decided: the code
+/// gave no answer where the statement demands one. Any other panic is a failure of the harness.
+pub fn guarded<C>(prop: &str, check: &(dyn Fn(&C, &mut CaseCtx) + Sync), case: &C, ctx: &mut CaseCtx) {
+    if std::panic::catch_unwind(std::panic::AssertUnwindSafe(|| check(case, ctx))).is_err() {
+        let msg = mdns_sd::verif::take_last_panic().unwrap_or_default();
+        let loc = msg.split(": ").next().unwrap_or("").to_string();
+        ctx.violations.clear();
+        if loc.starts_with("/repo/src/") && !loc.starts_with("/repo/src/verif") {
+            ctx.violation(format!("{prop}/crate-code-panicked/{loc}"), format!("code of the crate, called in-process, panicked: {msg}"));
+        } else {
+            ctx.violation(format!("HARNESS/check-panicked/{loc}"), format!("the check itself panicked: {msg}"));
+        }
+    }
 }
 
 /// Runs committed regression inputs of a part (files `replays/<prop>/*.json` with that part).
@@ -646,14 +665,16 @@ where
             continue;
         };
         let mut ctx = CaseCtx::default();
-        check(&case, &mut ctx);
+        guarded(&agg.prop.clone(), check, &case, &mut ctx);
         agg.evaluations += 1;
         *agg.classes.entry(format!("{part_name}:regression-file")).or_insert(0) += 1;
         if let Some(sig) = &ctx.nontrivial {
             agg.nontrivial.insert(hash_str(sig) ^ hash_str(part_name));
         }
         for viol in ctx.violations {
-            if agg.is_known(&viol.signature) {
+            if viol.signature.starts_with("HARNESS/") {
+                agg.health_failures.push(format!("regression file {}: {} ({})", f.display(), viol.signature, viol.detail));
+            } else if agg.is_known(&viol.signature) {
                 *agg.known_hits.entry(viol.signature).or_insert(0) += 1;
             } else if !agg.new_violations.iter().any(|(s, _)| s == &viol.signature) {
                 eprintln!(
@@ -704,7 +725,7 @@ where
             want_sample: true,
             ..Default::default()
         };
-        check(&case, &mut ctx);
+        guarded(prop, check, &case, &mut ctx);
         if !ctx.violations.is_empty() {
             reproduced += 1;
             last = ctx.violations;
